@@ -60,10 +60,14 @@ def decl_specs(tier):
                     opts['generate_for_pack'] = False
                 K = PKT('K', fields, **opts)
                 specs.append({'P': K, 'tag': '%s sbl=%s gen=%s' % (tag, sbl, gen)})
-                if gen and delimited and sbl is None:
-                    # the same field made optional: .when(t)
-                    KO = PKT('K', [('pre', I(1)), ('t', I(1)), ('d', ir.O(node, F('t'))), ('post', I(1))])
-                    specs.append({'P': KO, 'tag': '%s optional' % tag})
+                if gen and delimited and sbl in (None, 2, 3):
+                    # the same field made optional: .when(t), and repeated directly: .repeated(c) - the class-wide search
+                    # window must reach the wrapped field too
+                    KO = PKT('K', [('pre', I(1)), ('t', I(1)), ('d', ir.O(node, F('t'))), ('post', I(1))], **opts)
+                    specs.append({'P': KO, 'tag': '%s optional sbl=%s' % (tag, sbl)})
+                    if sbl != 2:
+                        KS = PKT('K', [('pre', I(1)), ('c', I(1)), ('d', S(node, F('c'))), ('post', I(1))], **opts)
+                        specs.append({'P': KS, 'tag': '%s repeated-directly sbl=%s' % (tag, sbl)})
                 if gen and node['mode'] != 'eos' and '$' not in tag and sbl in (None, 3):
                     W = PKT('W', [('c', I(1)), ('items', S(R(K), F('c')))])
                     specs.append({'P': W, 'tag': '%s sbl=%s repeated' % (tag, sbl)})
